@@ -1486,8 +1486,8 @@ class MPO:
         # Left boundary: take only row 0
         tensors[0] = np.transpose(tensor.copy(), (2, 3, 0, 1))[:, :, 0:1, :].astype(np.complex128)
 
-        # Right boundary: take only col 3
-        tensors[-1] = np.transpose(tensor.copy(), (2, 3, 0, 1))[:, :, :, 3:4].astype(np.complex128)
+        # Right boundary: take only col 3 (of the left-boundary row if the chain has a single site)
+        tensors[-1] = tensors[-1][:, :, :, 3:4]
 
         mpo = cls()
         mpo.tensors = tensors
